@@ -90,6 +90,7 @@ func filterCase(r *hlib.Rng, s *hlib.Suite) {
 	}
 	s.Count("clause-root-" + cl.kind)
 	mt := matcherTable(cl, in)
+	cl.complete(in)
 	nontrivial := qf.Len() > 0 && (len(hist) > 0 || cl.kind != "leaf")
 	s.Add("FFilter "+coqFrame(in)+" "+mt+" "+cl.coq()+" "+coqFrame(od), desc, nontrivial)
 }
